@@ -5,7 +5,9 @@
 (* validated against the quantile / mean operators of Posterior.tla.       *)
 (* One event = one summarised trace:                                        *)
 (*   x[i]  = round((trace_i - x0) * S)   (shifted, scaled integers)         *)
-(*   w[i]  = integer weights (the double hands w/sum(w) to the optimizer)   *)
+(*   w[i]  = relative integer weights; the double hands w * tot / sum(w) to *)
+(*           the optimizer, tot = <<n, d>> an arbitrary positive total (the  *)
+(*           summaries do not depend on it: TotalFree in MC_Posterior)       *)
 (*   q     = <<q16, q50, q84>> reported, as round((value - x0) * S) with    *)
 (*           q16 = value - sigma_m, q84 = value + sigma_p                   *)
 (*   mean  = round((mean - x0) * S),  tol in units                          *)
@@ -17,6 +19,7 @@ TraceLog == ndJsonDeserialize(IOEnv.TRACE_FILE)
 
 Ok(e) ==
     /\ Len(e.x) = Len(e.w)
+    /\ e.tot[1] > 0 /\ e.tot[2] > 0 /\ TotalW(e.w) > 0
     /\ \E t \in Triples(e.x, e.w) : \A k \in 1..3 : Close(e.q[k], 1, t[k], e.tol)
     /\ Close(e.mean, 1, WMean(e.x, e.w), e.tol)
 Init == l = 1
